@@ -631,7 +631,7 @@ v("c14-quote-identifier-strips", "C14", SM,
 v("c14-mysql-quote-identifier-lowercases", "C14", "MySQL.py",
   "        return self.identifier_quote + identifier + self.identifier_quote", "        return self.identifier_quote + identifier.lower() + self.identifier_quote")
 v("c14-jointype-unchecked", "C14", "expr_rep.py",
-  "    if join_str not in allowed:\n        raise KeyError(f\"join type {join_str} not supported\")\n    return join_str", "    return join_str")
+  "    if join_str not in allowed:\n        raise KeyError(f\"join type {join_str} not supported\")\n    if join_str", "    if join_str")
 v("c14-enc-term-compares-text-with-name", "C14", SM,
   "        if v is None:\n            return self.quote_identifier(k)", "        if (v is None) or (v == k):\n            return self.quote_identifier(k)")
 v("c14-table-def-stores-raw-name-as-term", "C14", SM,
@@ -1011,3 +1011,9 @@ v("d82-remove-forgets-before-drop", "C20", "db_space.py",
 
 v("d83-polars-full-join-keys-not-folded", "C16", PM,
   "                        if (ka == kb) and ((ka + \"_da_right_tmp\") in joined_columns)\n", "                        if False\n")
+
+SP = "SparkSQL.py"
+v("d84-spark-backslash-not-escaped", "C14", SP, '            + string.replace("\\\\", "\\\\\\\\").replace(\n', '            + string.replace(\n')
+v("d84-spark-escape-order-swapped", "C14", SP,
+  '            + string.replace("\\\\", "\\\\\\\\").replace(\n                self.string_quote, "\\\\" + self.string_quote\n            )\n',
+  '            + string.replace(\n                self.string_quote, "\\\\" + self.string_quote\n            ).replace("\\\\", "\\\\\\\\")\n')
